@@ -85,4 +85,38 @@ theorem merge_single (zero : Q) (l : Line Q T L K G) (c : Q) :
   · rw [mergeStep_of_le ltB ltB_iff (zero, l) (l, c) (not_lt.mp hc)]
     simp [hc]
 
+
+/-- Chained merging (a merged layout goes through the merger again, together with further engines): it gives exactly the
+line that merging all engines at once gives.  The merged line is presented with the confidence of the content it carries
+(`get_confidences` is a function of text, logits and character table): the running maximum if some engine was positive,
+otherwise the first engine's own confidence. -/
+theorem merge_chain (zero : Q) (e0 : Line Q T L K G × Q) (pre post : List (Line Q T L K G × Q)) :
+    let st := (e0 :: pre).foldl (mergeStep ltB) (zero, e0.1)
+    let cm := if zero < st.1 then st.1 else e0.2
+    mergeLine ltB zero ((st.2, cm) :: post) = mergeLine ltB zero (e0 :: pre ++ post) := by
+  intro st cm
+  obtain ⟨h1, h2, h3⟩ := foldl_inv ltB ltB_iff zero e0.1 (e0 :: pre)
+  have hstep : mergeStep ltB (zero, st.2) (st.2, cm) = st :=
+    mergeStep_restart ltB ltB_iff zero st e0.2 h1 h2 (fun hn => (h3 hn).2 e0 (by simp))
+  show some (((st.2, cm) :: post).foldl (mergeStep ltB) (zero, st.2)).2 =
+    some ((e0 :: (pre ++ post)).foldl (mergeStep ltB) (zero, e0.1)).2
+  rw [List.foldl_cons, hstep, ← List.cons_append, List.foldl_append]
+
+/-- In particular merging a merged layout with itself changes nothing at all (not even the recorded confidence). -/
+theorem merge_chain_self (zero : Q) (e0 : Line Q T L K G × Q) (pre : List (Line Q T L K G × Q)) (n : ℕ) :
+    let st := (e0 :: pre).foldl (mergeStep ltB) (zero, e0.1)
+    let cm := if zero < st.1 then st.1 else e0.2
+    mergeLine ltB zero (List.replicate (n + 1) (st.2, cm)) = mergeLine ltB zero (e0 :: pre) := by
+  intro st cm
+  obtain ⟨h1, h2, h3⟩ := foldl_inv ltB ltB_iff zero e0.1 (e0 :: pre)
+  have h3' : ¬ zero < st.1 → e0.2 ≤ zero := fun hn => (h3 hn).2 e0 (by simp)
+  have hstep : mergeStep ltB (zero, st.2) (st.2, cm) = st :=
+    mergeStep_restart ltB ltB_iff zero st e0.2 h1 h2 h3'
+  have hcm : cm ≤ st.1 := restart_conf_le zero st.1 e0.2 h3' h1
+  show some ((List.replicate (n + 1) (st.2, cm)).foldl (mergeStep ltB) (zero, st.2)).2 = some st.2
+  rw [List.replicate_succ, List.foldl_cons, hstep, foldl_no_improve ltB ltB_iff]
+  intro e he
+  rw [List.eq_of_mem_replicate he]
+  exact hcm
+
 end C19
